@@ -1,4 +1,4 @@
-TUS = ['src/client/QXmppCarbonManagerV2.cpp', 'src/client/QXmppCarbonManager.cpp', 'src/client/QXmppClientExtension.cpp', 'src/base/QXmppUtils.cpp', 'src/client/QXmppConfiguration.cpp']
+TUS = ['src/client/QXmppCarbonManagerV2.cpp', 'src/client/QXmppCarbonManager.cpp', 'src/client/QXmppClientExtension.cpp', 'src/base/QXmppUtils.cpp', 'src/client/QXmppConfiguration.cpp', 'src/base/QXmppLogger.cpp']
 MODELS = ['qt_core.c', 'qt_list.c', 'qt_dom.c', 'qt_object.c', 'c11_env.c']
 BOUND = 'stanza tree: outer + 3 children + 2 grandchildren each + 2 great-grandchildren each (22 elements), every tag from {message,sent,received,forwarded,body,private,messages}, every xmlns from {carbons:2, forward:0, jabber:client, carbons:1, inherited}, child counts 0..max; outer from absent or <= 6 arbitrary UTF-16 units; account = REAL QXmppConfiguration with symbolic user (0..2 units), domain (1..3 units), resource (0..2 units), user/domain without @ and /'
 BOUND_BIG = BOUND.replace('3 children + 2 grandchildren each + 2 great-grandchildren each (22 elements)', '3 children + 3 grandchildren each + 3 great-grandchildren each (40 elements)').replace('<= 6 arbitrary', '<= 8 arbitrary')
@@ -25,7 +25,7 @@ SPEC = dict(
                  'QXmppClient::configuration() returns the harness-built configuration object; QXmppClient::injectMessage is a recording model returning an arbitrary bool',
                  'QMetaObject::activate records the emission (sender, meta object, signal index, argument snapshot); slots are not run; QXmppLoggable::logMessage is a no-op; V2\'s log text (QStringBuilder::convertTo) is not built',
                  'signal indices of messageSent/messageReceived are measured by calling the real moc-generated signal bodies before the stanza is handled'],
-    outside=['e2ee metadata other than std::nullopt (the parameter is unused by V2)', 'the dispatch inside QXmppClient (StanzaPipeline/MessagePipeline) before and after the manager: the managers are called non-virtually on raw storage',
+    outside=['e2ee metadata other than std::nullopt (the parameter is unused by V2)', 'the dispatch inside QXmppClient (StanzaPipeline/MessagePipeline) before and after the manager: handleStanza is called non-virtually on a manager built by its real constructor (QObject base: models/qt_object.c)',
              'what message handlers do with an injected message; content of the inner message (parse is cut)', 'composition of jidBare() from user/domain (QXmppConfiguration)',
              'case-insensitive or normalising comparisons (model asserts -> inconclusive if a change introduces them)', 'enabling carbons (IQ / bind2), onRegistered/onUnregistered',
              'trees deeper than 4 levels or wider than the bound; more than one carbon-namespace look-alike (urn:xmpp:carbons:1) and one tag look-alike (messages)'],
